@@ -3,7 +3,7 @@
  * suffix: NULL or <= 2 symbolic bytes (incl. '/' and '~'); value: NULL or a node (cJSON_Duplicate stubbed: fresh node).
  * Expected: {"op": operation, "path": path [+ "/" + RFC 6901-escape(suffix)], ["value": copy]} in that member order, appended last,
  * everything well-formed, all memory from the installed hooks, temporaries released. */
-#define VF_SZ_LIST(X) X(3) X(4) X(5) X(6) X(7) X(8) X(9) X(10)
+#define VF_SZ_LIST(X) X(1) X(2) X(3) X(4) X(5) X(6) X(7) X(8) X(9)
 #define VF_INPUTS(X) X(unsigned char, path, [3]) X(unsigned char, suffix, [3]) X(unsigned char, has_suffix, ) X(unsigned char, has_value, ) X(unsigned char, m, ) X(unsigned char, opsel, ) \
     X(unsigned char, g_text, [2][26]) X(double, g_val, ) X(double, strtod_val, ) X(unsigned char, dp, )
 #include "vf.h"
